@@ -4,7 +4,7 @@ Require Import List NArith Bool PeanoNat Lia String.
 Require Import KV.Parser.Utf8 KV.Parser.Unicode KV.Parser.Keywords KV.Parser.Scanners KV.Parser.Grammar KV.Parser.Run.
 Require Import KV.Parser.Utf8Proofs KV.Parser.ScannerProofs KV.Parser.GrammarProofs.
 Require Import KV.Parser.RoundTrip KV.Parser.RoundTrip2 KV.Parser.RoundTrip3 KV.Parser.Lex KV.Parser.StmtRT KV.Parser.FilterRT KV.Parser.FilterRT2
-               KV.Parser.SelectRT KV.Parser.BindRT KV.Parser.ValuesRT KV.Parser.GroupRT KV.Parser.PrologueRT KV.Parser.TopRT KV.Parser.SizeRT.
+               KV.Parser.SelectRT KV.Parser.BindRT KV.Parser.ValuesRT KV.Parser.GroupRT KV.Parser.PrologueRT KV.Parser.TopRT KV.Parser.SizeRT KV.Parser.UpdateRT.
 Import ListNotations.
 Open Scope N_scope.
 
@@ -28,14 +28,15 @@ Definition st3 : Stmt := mkStmt (tvar sp "s") (mkPG sp (PT (TVar 63 (bs "p"))) (
 
 Definition opv (l : L) (name : string) : SumC := SumOne (ProdOne (OpT (tvar l name))).
 Definition opn (l : L) (ds : string) : SumC := SumOne (ProdOne (OpT (tnum l ds))).
-(* ?x + 2 * (?w - 1) > 1 && !(?y = 2 || ?z < 3 ) || isTriple ( ?t ) *)
+(* ?x + 2 * (?w - 1) > 1 && !(?y = 2 || ?z < 3 ) || (isTriple ( ?t ) && ?x !=1) *)
 Definition lhs : SumC :=
   SumMore (opv [] "x") sp 43 (ProdMore (ProdOne (OpT (tnum sp "2"))) sp 42 (OpP sp (SumMore (opv [] "w") sp 45 (ProdOne (OpT (tnum sp "1")))) [])).
 Definition expr : OrC :=
   OrMore (OrOne (AndMore (AndOne (AtCmp lhs sp (bs ">") (opn sp "1"))) sp
                          (AtNot sp (AtParen [] (OrMore (OrOne (AndOne (AtCmp (opv [] "y") sp (bs "=") (opn sp "2")))) sp
                                                        (AndOne (AtCmp (opv sp "z") sp (bs "<") (opn sp "3")))) sp))))
-         cm (AndOne (AtCall sp FnIsTriple (bs "isTriple") sp (tvar sp "t") [] sp)).
+         cm (AndOne (AtParen sp (OrOne (AndMore (AndOne (AtCall [] FnIsTriple (bs "isTriple") sp (tvar sp "t") [] sp)) sp
+                                                 (AtCmp (opv sp "x") sp (bs "!=") (opn [] "1")))) [])).
 Definition flt : FilterC := {| fl_kl := nl; fl_kw := bs "Filter"; fl_lp := sp; fl_e := expr; fl_rp := sp |}.
 
 (* BIND ( concat (?s, "x", 1) AS ?b )   VALUES ( ?x ?y ) { ( 1 UNDEF ) ( <a> "b" ) }   VALUES ?z { true ex:a } *)
@@ -83,7 +84,7 @@ Definition tail : EndC := {| e_lay := nl; e_comment := Some (bs " done") |}.
 
 Example query_wf : forallb wf_prefix prologue = true /\ wf_sel query true (pr_end tail) = true /\ wf_end tail = true.
 Proof. vm_compute. repeat split; reflexivity. Qed.
-Example query_size : (sz_sel query <= 100)%nat.
+Example query_size : (sz_sel query <= 200)%nat.
 Proof. vm_compute. lia. Qed.
 
 (* The printed request (layout, comments and letter case as annotated above; a tab follows each `# note` line break):
@@ -115,10 +116,10 @@ Proof. vm_compute. lia. Qed.
 Definition query_text : str := pr_prologue prologue ++ pr_sel query ++ pr_end tail.
 
 (* the theorem, instantiated *)
-Example query_parse : parse_sparql_query 100 query_text = Ok (tr_sel query).
+Example query_parse : parse_sparql_query 200 query_text = Ok (tr_sel query).
 Proof. apply query_roundtrip; [exact query_size|exact (proj1 query_wf)|exact (proj1 (proj2 query_wf))|exact (proj2 (proj2 query_wf))]. Qed.
-Example query_parse_top : parse_top 100 false query_text = Ok (TSelect [(bs "ex", bs "http://e/"); ([], bs "#")] (tr_sel query)).
-Proof. exact (top_select_roundtrip prologue query tail 100 false query_size (proj1 query_wf) (proj1 (proj2 query_wf)) (proj2 (proj2 query_wf))). Qed.
+Example query_parse_top : parse_top 200 false query_text = Ok (TSelect [(bs "ex", bs "http://e/"); ([], bs "#")] (tr_sel query)).
+Proof. exact (top_select_roundtrip prologue query tail 200 false query_size (proj1 query_wf) (proj1 (proj2 query_wf)) (proj2 (proj2 query_wf))). Qed.
 (* with the fuel the check uses: by the theorem ... *)
 Example query_parse_default : parse_sparql_query (default_fuel query_text) query_text = Ok (tr_sel query).
 Proof. exact (proj1 (query_roundtrip_default prologue query tail false (proj1 query_wf) (proj1 (proj2 query_wf)) (proj2 (proj2 query_wf)))). Qed.
@@ -130,7 +131,7 @@ Proof. vm_compute. reflexivity. Qed.
 Example expr_tree :
   tr_or expr = FOr (FAnd (FCmp (bs "?x + 2 * (?w - 1)") (bs ">") (bs "1"))
                          (FNot (FOr (FCmp (bs "?y") (bs "=") (bs "2")) (FCmp (bs "?z") (bs "<") (bs "3")))))
-                   (FCall kw_istriple [bs "?t"]).
+                   (FAnd (FCall kw_istriple [bs "?t"]) (FCmp (bs "?x") (bs "!=") (bs "1"))).
 Proof. vm_compute. reflexivity. Qed.
 Example body_tree :
   tr_grp body = GJoin [ GBgp [(bs "?s", bs "<p>", bs "?o"); (bs "?s", bs "ex:q", bs """a"""); (bs "?s", bs "ex:q", bs "1")];
@@ -152,3 +153,49 @@ Example wf_rejects_glued_keyword :
   wf_sel (MkSel [] (bs "SELECT") None (PStar []) [] (Some ([], bs "WHERE")) (MkGrp [] ItNil []) None None None) true [] = true
   /\ wf_sel (MkSel [] (bs "SELECT") None (PList (PVar (tvar [] "s")) []) [] (Some ([], bs "WHERE")) (MkGrp [] ItNil []) None None None) true [] = false.
 Proof. vm_compute. split; reflexivity. Qed.
+
+(* the parser does not accept a bare arithmetic FILTER atom that starts with a parenthesised operand (it reads the
+   parenthesis as a boolean group and then meets `*`); such an atom is therefore excluded from `wf_atom` *)
+Example paren_arith_atom_rejected : exists k l e, filter_clause 100 (bs "FILTER((?a) * 2)") = Err k l e.
+Proof. eexists _, _, _. vm_compute. reflexivity. Qed.
+
+(* ---- updates ---------------------------------------------------------------------------------------------------------- *)
+Definition sd (l : L) (s p o : string) (d : option L) : SD :=
+  (mkStmt (tvar l s) (mkPG sp (PT (TIri (map IC (bs p)))) (mkObjs (tvar sp o) [])) [] None, d).
+Definition sd_iri (l : L) (s p : string) (o : OTok) (d : option L) : SD :=
+  (mkStmt (tiri l s) (mkPG sp (PT (TIri (map IC (bs p)))) (mkObjs o [])) [] None, d).
+Definition upd1 : UpdC :=
+  UDeleteInsertWhere nl (bs "Delete")
+    {| qb_l := sp; qb_items := [QGraph sp (bs "GRAPH") (tiri sp "g") sp [sd sp "s" "p" "o" (Some sp); sd nl "a" "b" "c" None] nl None; QStmt (sd sp "x" "q" "y" (Some []))]; qb_r := sp |}
+    nl (bs "INSERT") {| qb_l := sp; qb_items := [QStmt (sd sp "s" "p2" "o" None)]; qb_r := sp |}
+    cm (bs "where") (MkGrp sp (ItCons (ItStmt st3 None) ItNil) sp).
+Definition upd2 : UpdC :=
+  UInsertData [] (bs "insert") sp (bs "DATA")
+    {| qb_l := sp; qb_items := [QStmt (sd_iri sp "s" "p" (tlit sp "v") (Some sp)); QGraph nl (bs "graph") (tpn sp "ex" "g") sp [sd_iri sp "a" "b" (tnum sp "1") None] sp (Some [])]; qb_r := nl |}.
+Definition upd3 : UpdC := UDeleteWhereShort [] (bs "DELETE") sp (bs "WHERE") {| qb_l := []; qb_items := [QStmt (sd [] "s" "p" "o" None)]; qb_r := [] |}.
+Definition upd_bad : UpdC :=
+  UInsertData [] (bs "INSERT") sp (bs "DATA") {| qb_l := sp; qb_items := [QStmt (sd sp "s" "p" "o" None)]; qb_r := sp |}.
+
+Example updates_wf : wf_upd upd1 (pr_end tail) = true /\ wf_upd upd2 (pr_end tail) = true /\ wf_upd upd3 (pr_end tail) = true
+                     /\ wf_upd_syntax upd_bad (pr_end tail) = true /\ wf_upd upd_bad (pr_end tail) = false.
+Proof. vm_compute. repeat split; reflexivity. Qed.
+Example update_parse : forall u, In u [upd1; upd2; upd3] ->
+  let text := pr_prologue prologue ++ pr_upd u ++ pr_end tail in
+  parse_top (default_fuel text) false text = Ok (TUpdate [(bs "ex", bs "http://e/"); ([], bs "#")] (tr_upd u)).
+Proof.
+  intros u Hin. destruct updates_wf as (H1 & H2 & H3 & _).
+  destruct Hin as [<-|[<-|[<-|[]]]]; apply (top_update_roundtrip_default prologue _ tail false (proj1 query_wf)); try assumption; exact (proj2 (proj2 query_wf)).
+Qed.
+Example update_parse_computed :
+  map (fun u => let text := pr_prologue prologue ++ pr_upd u ++ pr_end tail in parse_top (default_fuel text) false text) [upd1; upd2; upd3]
+  = map (fun u => Ok (TUpdate [(bs "ex", bs "http://e/"); ([], bs "#")] (tr_upd u))) [upd1; upd2; upd3].
+Proof. vm_compute. reflexivity. Qed.
+Example update_trees :
+  tr_upd upd2 = InsertData [(None, (bs "<s>", bs "<p>", bs """v""")); (Some (bs "ex:g"), (bs "<a>", bs "<b>", bs "1"))]
+  /\ tr_upd upd3 = DeleteWhereShorthand [(None, (bs "?s", bs "<p>", bs "?o"))] (GBgp [(bs "?s", bs "<p>", bs "?o")]).
+Proof. vm_compute. split; reflexivity. Qed.
+(* INSERT DATA { ?s <p> ?o } is rejected by the DATA-block check *)
+Example update_bad_rejected : exists k l e, update_core 10 false (pr_upd upd_bad ++ pr_end tail) = Err k l e.
+Proof.
+  apply insert_data_rejects_variables; [exact (proj1 (proj2 (proj2 (proj2 updates_wf))))|vm_compute; reflexivity|vm_compute; reflexivity|exact (proj2 (end_facts tail (proj2 (proj2 query_wf))))].
+Qed.
